@@ -1682,20 +1682,7 @@ func c05Threshold(c *core.Ctx) {
 	} else {
 		c.Ob("C05-R4", "UNRESOLVED:num.Amount.Compare", token.NoPos, false, "method not found")
 	}
-	if fd := p.Func("num", "Amount", "Equals"); fd != nil {
-		ok := false
-		ast.Inspect(fd.Decl.Body, func(n ast.Node) bool {
-			if be, isB := n.(*ast.BinaryExpr); isB && be.Op == token.EQL {
-				if tv, has := fd.Pkg.TypesInfo.Types[be.Y]; has && tv.Value != nil && tv.Value.String() == "0" {
-					if cl, isC := ast.Unparen(be.X).(*ast.CallExpr); isC && isAmountMethod(core.Callee(fd.Pkg.TypesInfo, cl), "Compare") {
-						ok = true
-					}
-				}
-			}
-			return true
-		})
-		c.Ob("C05-R4", fd.Name(), fd.Decl.Pos(), ok, "Equals is not Compare == 0")
-	}
+	numEqualsByCompare(c, "C05-R4")
 	// operator constants -> relation named by the attached error
 	fd := p.Func("num", "ThresholdRule", "compare")
 	if fd == nil {
@@ -1966,4 +1953,104 @@ func c05UpscaleIsRescalePlus(p *core.Program) bool {
 		return false
 	}
 	return (isExp(be.X) && core.VarOf(info, be.Y) == param) || (isExp(be.Y) && core.VarOf(info, be.X) == param)
+}
+
+// equalsByCompare: every decision the method takes (returned expressions
+// and branch conditions) is `x.Compare(y) == 0` or `x.Equals(y)` over the
+// receiver and the argument, and the body reads no raw value or exponent.
+func equalsByCompare(fd *core.FuncDecl) (bool, string) {
+	info := fd.Pkg.TypesInfo
+	ld := core.NewLocalDefs(info, fd.Decl.Body)
+	resolve := func(e ast.Expr, _ int) ast.Expr { return ast.Unparen(ld.Resolve(ast.Unparen(e), 4)) }
+	raw := ""
+	ast.Inspect(fd.Decl.Body, func(n ast.Node) bool {
+		if se, ok := n.(*ast.SelectorExpr); ok {
+			if v, ok := info.Uses[se.Sel].(*types.Var); ok && v.IsField() && (v.Name() == "value" || v.Name() == "exp") {
+				raw = "reads ." + v.Name() + " directly"
+			}
+		}
+		return true
+	})
+	if raw != "" {
+		return false, raw
+	}
+	var accepted func(e ast.Expr) bool
+	accepted = func(e ast.Expr) bool {
+		e = resolve(e, 0)
+		switch x := e.(type) {
+		case *ast.UnaryExpr:
+			return x.Op == token.NOT && accepted(x.X)
+		case *ast.BinaryExpr:
+			if x.Op != token.EQL && x.Op != token.NEQ {
+				return false
+			}
+			l, r := resolve(x.X, 0), resolve(x.Y, 0)
+			if tv, has := info.Types[r]; !has || tv.Value == nil || tv.Value.String() != "0" {
+				l, r = r, l
+			}
+			if tv, has := info.Types[r]; !has || tv.Value == nil || tv.Value.String() != "0" {
+				return false
+			}
+			cl, isC := l.(*ast.CallExpr)
+			if !isC {
+				return false
+			}
+			f := core.Callee(info, cl)
+			return f != nil && f.Name() == "Compare" && f.Pkg() != nil && strings.HasSuffix(f.Pkg().Path(), "/num")
+		case *ast.CallExpr:
+			f := core.Callee(info, x)
+			return f != nil && f.Name() == "Equals" && f != fd.Obj && f.Pkg() != nil && strings.HasSuffix(f.Pkg().Path(), "/num")
+		}
+		return false
+	}
+	n, bad := 0, ""
+	decide := func(e ast.Expr) {
+		if tv, has := info.Types[e]; has && tv.Value != nil {
+			return // literal true/false under a branch
+		}
+		n++
+		if !accepted(e) {
+			bad = types.ExprString(e)
+		}
+	}
+	ast.Inspect(fd.Decl.Body, func(m ast.Node) bool {
+		switch x := m.(type) {
+		case *ast.FuncLit:
+			return false
+		case *ast.ReturnStmt:
+			for _, r := range x.Results {
+				decide(r)
+			}
+		case *ast.IfStmt:
+			decide(x.Cond)
+		case *ast.SwitchStmt:
+			if x.Tag != nil {
+				bad = "switch"
+			}
+		}
+		return true
+	})
+	if bad != "" {
+		return false, "decides on " + bad
+	}
+	if n == 0 {
+		return false, "no comparison found"
+	}
+	return true, ""
+}
+
+// numEqualsByCompare: Amount.Equals and Percentage.Equals are Compare == 0 of
+// the two whole quantities (used by C05-R4, C02-R10 and C20-R7: the group
+// identity and Merge's row matching compare percentages with them).
+func numEqualsByCompare(c *core.Ctx, rule string) {
+	p := c.P
+	for _, recv := range []string{"Amount", "Percentage"} {
+		fd := p.Func("num", recv, "Equals")
+		if fd == nil {
+			c.Ob(rule, "UNRESOLVED:num."+recv+".Equals", token.NoPos, false, "method not found")
+			continue
+		}
+		ok, why := equalsByCompare(fd)
+		c.Ob(rule, fd.Name(), fd.Decl.Pos(), ok, "Equals is not Compare == 0 of the two whole quantities ("+why+"): equality would depend on which operand carries more decimals")
+	}
 }
